@@ -74,6 +74,7 @@ WORK_BUDGET = 50_000  # characters handed to subproc_toks for ONE input (inputs 
 WALL_S = 5.0  # alarm per input, in CPU seconds of the worker (the machine may be shared), wall backstop 15 x that;
 # an alarm counts only if it repeats on re-running the same input
 MAX_TERM_VIOLS_PER_WORKER = 12  # after that many budget/alarm aborts a worker stops exploring (cap is reported)
+MAX_WORK_ABORTS_PER_WORKER = 300  # same for the (cheap) work-budget aborts; only the first 25 of a worker are minimised
 
 BOUND = ("ok", "ctxm", "ev", "xs")
 CMD_NAMES = [p + s for p in "ctp" for s in "abc"] + ["ia", "cz"]
@@ -103,6 +104,7 @@ class _Work(BaseException):
 
 
 _WORK = [0]
+_WORK_ABORTS = [0]
 
 
 def _on_alarm(signum, frame):
@@ -176,6 +178,7 @@ def _init_worker():
             counting_toks._c03_counting = True
             mod.subproc_toks = counting_toks
     _TERM_ABORTS[0] = 0
+    _WORK_ABORTS[0] = 0
     _MAXCNT[0] = 0
     _FAILS.clear()
     _MINI.clear()
@@ -199,7 +202,9 @@ def guarded_parse(src, names=None):
         if out[0] != "alarm":
             break  # only a repeatable time-out counts (the deterministic budgets are the primary criterion)
     if out[0] in ("budget", "alarm"):
-        _TERM_ABORTS[0] += 1  # expensive aborts; a "work" abort is cheap and does not count towards the cap
+        _TERM_ABORTS[0] += 1  # expensive aborts
+    elif out[0].startswith("work"):
+        _WORK_ABORTS[0] += 1  # cheap aborts, separate (larger) cap
     return out, n, dt
 
 
@@ -519,7 +524,7 @@ def minimise(chain, pos, sig):
             break
         path.append(k)
         for cand in gen.reductions(*cur):
-            if _TERM_ABORTS[0] > MAX_TERM_VIOLS_PER_WORKER * 4:
+            if _TERM_ABORTS[0] > MAX_TERM_VIOLS_PER_WORKER * 4 or _WORK_ABORTS[0] > MAX_WORK_ABORTS_PER_WORKER * 4:
                 break
             if _fails(*cand) == sig:
                 cur = cand
@@ -527,7 +532,7 @@ def minimise(chain, pos, sig):
         else:
             final = cur
             break
-        if _TERM_ABORTS[0] > MAX_TERM_VIOLS_PER_WORKER * 4:
+        if _TERM_ABORTS[0] > MAX_TERM_VIOLS_PER_WORKER * 4 or _WORK_ABORTS[0] > MAX_WORK_ABORTS_PER_WORKER * 4:
             final = cur
             break
     for k in path:
@@ -630,7 +635,7 @@ def _do_chain(item):
     b = _BLOCKS[bi]
     out = {"n": 0, "st": {}, "viols": [], "executed": 0, "maxparses": 0, "capped": 0, "slow": 0.0, "samples": []}
     for pos in gen.positions(chain, b["kp"], b["rich"], kpmin=b.get("kpmin", 0)):
-        if _TERM_ABORTS[0] > MAX_TERM_VIOLS_PER_WORKER:
+        if _TERM_ABORTS[0] > MAX_TERM_VIOLS_PER_WORKER or _WORK_ABORTS[0] > MAX_WORK_ABORTS_PER_WORKER:
             out["capped"] += 1
             continue
         want = b["exec"] == "all" or (b["exec"] == "slice" and gen.in_exec_slice(chain, pos))
@@ -765,7 +770,7 @@ def _do_prefix(item):
         s = pre + "".join(suf)
         if _covered_earlier(s, _BFAMS, fi):
             continue
-        if _TERM_ABORTS[0] > MAX_TERM_VIOLS_PER_WORKER:
+        if _TERM_ABORTS[0] > MAX_TERM_VIOLS_PER_WORKER or _WORK_ABORTS[0] > MAX_WORK_ABORTS_PER_WORKER:
             out["capped"] += 1
             continue
         kind, sig, np_, dt = b_outcome(s)
@@ -776,8 +781,10 @@ def _do_prefix(item):
         if dt > out["slow"]:
             out["slow"], out["slow_in"] = dt, s
         if kind in ("internal", "nonterm"):
-            if kind == "internal" or sig.startswith("work"):
+            if kind == "internal" or (sig.startswith("work") and _WORK_ABORTS[0] <= 25):
+                saved = (_TERM_ABORTS[0], _WORK_ABORTS[0])  # aborts of minimisation candidates do not count towards the caps
                 m = b_minimise(s, kind, sig)  # every evaluation is bounded by the budgets
+                _TERM_ABORTS[0], _WORK_ABORTS[0] = saved
             else:
                 # a spinning input is not minimised (each attempt costs a full budget): first one of this worker
                 m = _BMIN.setdefault((kind, sig), s)
